@@ -69,7 +69,7 @@ CHECKS = {
   "technique": "TLC model checking of Hints.tla + replay with recording / pruning storage + trace validation by TLC (SessionTrace)",
  },
  "C20": {
-  "text": "TLC simulation of Session.tla produces histories (12/30/50 operations: executions of 25 queries incl. failing, fallback, cancelled, name-dropping over a metric hand-over; half of the 30-operation histories draw from three queries chosen per history; every other history runs on one processor; appends of samples/series/markers/gaps; closes) replayed on one engine and one growing storage; after every operation all earlier results are compared with their deep snapshots and each execution with a fresh engine; TLC validates SessionTrace.tla (memo per data version; ReturnedResultsImmutable).",
+  "text": "TLC simulation of Session.tla produces histories (12/30/50 operations: executions of 28 queries incl. failing, fallback, cancelled, name-dropping over a metric hand-over; half of the 30-operation histories draw from three queries chosen per history; every other history runs on one processor; appends of samples/series/markers/gaps; closes) replayed on one engine and one growing storage; after every operation all earlier results are compared with their deep snapshots and each execution with a fresh engine; TLC validates SessionTrace.tla (memo per data version; ReturnedResultsImmutable).",
   "design_ref": "DESIGN.md §6 C20",
   "note": "Trusted: deep snapshots taken by the harness at return time; random walks, not exhaustive. Windows with and without a per-query lookback; the long-lived engine is a plain engine or a distributed engine over long-lived local engines (compared with a freshly built one of the same kind).",
   "technique": "TLC-simulated histories of Session.tla replayed into one engine instance + trace validation by TLC (SessionTrace)",
